@@ -91,4 +91,9 @@ Credit(testRows, train, preds, nb, i, stat) ==
 EvalArm(testRows, train, preds, nb, a, stat) ==
     LET idx == SelectSeq([i \in DOMAIN preds |-> i], LAMBDA i : preds[i] = a)
     IN  StatsOf([k \in DOMAIN idx |-> Credit(testRows, train, preds, nb, idx[k], stat)])
+(* online runs report the same analysis per batch: test positions lo..hi only (credited with the statistics of the *)
+(* initial training rows and of each row's OWN neighbourhood)                                                    *)
+EvalArmIn(testRows, train, preds, nb, a, stat, lo, hi) ==
+    LET idx == SelectSeq([i \in DOMAIN preds |-> i], LAMBDA i : preds[i] = a /\ i >= lo /\ i <= hi)
+    IN  StatsOf([k \in DOMAIN idx |-> Credit(testRows, train, preds, nb, idx[k], stat)])
 =============================================================================
